@@ -230,7 +230,25 @@ def _(I, s, pat):
     raise Unsupported("str::find with this pattern")
 
 
-for _nm in ("trim", "trim_start", "trim_end", "parse", "split", "lines", "replace", "repeat"):
+@sstr("replace")
+def _(I, s, pat, to):
+    """str::replace with a char / &[char] pattern of ASCII chars (forks per byte on symbolic text)"""
+    s = as_str(I, s); to_b = list(as_str(I, to).items())
+    if isinstance(pat, int): pats = [pat]
+    else:
+        ps = unwrap_ptr(pat)
+        if type(ps) is Ptr: ps = I.read(ps.cell, ps.path)
+        pats = list(ps.items()) if type(ps) is SliceRef else list(ps.f)
+    if any(is_sym(p) or p >= 0x80 for p in pats): raise Unsupported("str::replace with a non-ASCII / symbolic pattern")
+    out = []
+    for b in s.items():
+        hit = (z3.Or(*[b == p for p in pats]) if is_sym(b) else b in pats)
+        if I.W.branch(hit): out += to_b
+        else: out.append(b)
+    return VecObj(out, "String")
+
+
+for _nm in ("trim", "trim_start", "trim_end", "parse", "split", "lines", "repeat"):
     for _p in P: S[_p + _nm] = (lambda nm: (lambda I, *a: (_ for _ in ()).throw(Unsupported("str::" + nm + " not summarised"))))(_nm)
 
 
@@ -526,3 +544,27 @@ def _encode_utf8(I, c, dst):
 
 for p in CH: S[p + "encode_utf8"] = _encode_utf8
 S["Vec::extend_from_slice"] = lambda I, p, s: (I.deref(p).f.extend(as_str(I, s).items() if getattr(s, "is_str", False) else (s.items() if type(s) is SliceRef else iter_to_list(I, s))), UNIT)[1]
+
+
+def _map_entries(I, mp):
+    m = I.deref(mp) if type(unwrap_ptr(mp)) is Ptr else mp
+    return m
+
+
+@summary("<&HashMap as IntoIterator>::into_iter", "HashMap::iter", "<&BTreeMap as IntoIterator>::into_iter")
+def _(I, mp):
+    m = _map_entries(I, mp)
+    return Agg([VecObj([tup(Ptr(Cell(e), (0,)), Ptr(Cell(e), (1,))) for e in m.d.values()]), 0], "ListIter")
+@summary("HashMap::keys")
+def _(I, mp):
+    m = _map_entries(I, mp)
+    return Agg([VecObj([Ptr(Cell(e), (0,)) for e in m.d.values()]), 0], "ListIter")
+@summary("HashMap::values")
+def _(I, mp):
+    m = _map_entries(I, mp)
+    return Agg([VecObj([Ptr(Cell(e), (1,)) for e in m.d.values()]), 0], "ListIter")
+@summary("<HashMap as IntoIterator>::into_iter")
+def _(I, m):
+    return Agg([VecObj([tup(e.f[0], e.f[1]) for e in m.d.values()]), 0], "ListIter")
+for _t in ("std::collections::hash_map::Iter", "hash_map::Iter", "std::collections::hash_map::Keys", "std::collections::hash_map::Values", "hash_map::Keys", "hash_map::Values", "std::collections::hash_map::IntoIter"):
+    S[f"<{_t} as Iterator>::next"] = it_next
